@@ -158,7 +158,9 @@ class Substitutor(SchemaVisitor[GenericSchema]):
                     if first_result is None:
                         first_result = res
             if first_result is not None:
-                return first_result
+                # only a partial value may be pinned into a result that does not accept it
+                if schema.__accept__(Validator(), value=value).has_errors():
+                    return first_result
             raise SubstitutionError(f"Can't substitute {value!r}")
 
         # head
